@@ -3,6 +3,7 @@ package props
 import (
 	"bufio"
 	"bytes"
+	"context"
 	"errors"
 	"fmt"
 	"io"
@@ -10,6 +11,7 @@ import (
 	"net/http"
 	"strings"
 	"testing"
+	"time"
 
 	"github.com/go-netty/go-netty/utils"
 	"pgregory.net/rapid"
@@ -29,15 +31,21 @@ type C14Case struct {
 	Step    int    `json:"step"` // short-read size / segment size / scratch size
 	ErrAt   int    `json:"errat"`
 	Defer   bool   `json:"defer"` // head, queued: the executor runs the sender only after Channel.Write returned
+	// Prelude (head mode): what happened on the channel before the message is written.
+	// "ctxwrite1-expired" / "ctxwritev-expired": a low-level write with a context whose deadline has passed (it fails and sends nothing)
+	Prelude string `json:"prelude,omitempty"`
 }
 
 var c14Sizes = []int{0, 1, 2, 100, 1023, 1024, 1025, 2047, 2048, 2049, 4095, 4096, 4097, 65535, 65536, 65537, 200000}
 
-var c14Supported = []string{"bytes", "bb", "bb1", "buffer", "breader", "sreader", "netbuffers", "wt1", "wtN", "wtReuse", "bufio", "reader", "short", "eofdata", "errafter",
+var c14Supported = []string{"bytes", "bb", "bb1", "bbalias", "buffer", "breader", "sreader", "netbuffers", "wt1", "wtN", "wtReuse", "bufio", "reader", "short", "eofdata", "errafter",
 	"limited", "limitedcut", "multi", "section", "exact"}
 var c14Unsupported = []string{"string", "int", "struct", "nil", "intslice", "httpreq"}
 
 var errC14 = errors.New("verif: reader failed")
+
+// c14ArenaCheck, when set by the carrier, verifies that the callee left the caller's memory alone.
+var c14ArenaCheck func() *core.Violation
 
 type wtOne struct{ data []byte }
 
@@ -139,6 +147,25 @@ func c14Carrier(c C14Case) (msg interface{}, want []byte) {
 		return segs, content
 	case "bb1": // a vector with exactly one element
 		return [][]byte{append([]byte{}, content...)}, content
+	case "bbalias":
+		// the elements are pieces of one buffer of the caller, handed over in another order than they lie in memory:
+		// memory [p0][p2][p1][guard], vector {p0, p1, p2}; p0's spare capacity covers p2 and p1
+		a, b := imin(c.ErrAt, len(content)), len(content)
+		if a < b {
+			b = a + (len(content)-a)/2
+		}
+		p0, p1, p2 := content[:a], content[a:b], content[b:]
+		arena := make([]byte, 0, len(content)+8)
+		arena = append(append(append(append(arena, p0...), p2...), p1...), bytes.Repeat([]byte{0xEE}, 8)...)
+		pristine := append([]byte{}, arena...)
+		c14ArenaCheck = func() *core.Violation {
+			if !bytes.Equal(arena, pristine) {
+				d := firstDiff(arena, pristine)
+				return core.Viol("C14/callers-memory-modified:bbalias", "after the call the caller's buffer differs at offset %d (element lengths %d/%d/%d laid out p0,p2,p1): % x, was % x", d, len(p0), len(p1), len(p2), arena[d:imin(len(arena), d+8)], pristine[d:imin(len(pristine), d+8)])
+			}
+			return nil
+		}
+		return [][]byte{arena[:len(p0)], arena[len(p0)+len(p2) : len(p0)+len(p2)+len(p1)], arena[len(p0) : len(p0)+len(p2)]}, content
 	case "buffer":
 		return bytes.NewBuffer(append([]byte{}, content...)), content
 	case "breader":
@@ -227,6 +254,9 @@ func genC14(t *rapid.T) C14Case {
 	case "head":
 		c.Carrier = rapid.SampledFrom(all).Draw(t, "carrier")
 		c.Queue = rapid.SampledFrom([]int{0, 0, 1, 2, 8, 64}).Draw(t, "queue")
+		if rapid.IntRange(0, 3).Draw(t, "prelude") == 0 {
+			c.Prelude = rapid.SampledFrom([]string{"ctxwrite1-expired", "ctxwritev-expired"}).Draw(t, "preludekind")
+		}
 		if rapid.Bool().Draw(t, "defer") {
 			// a stalled executor: the queue must hold every chunk of the message
 			c.Defer = true
@@ -238,7 +268,7 @@ func genC14(t *rapid.T) C14Case {
 	case "tobytes", "toreader":
 		c.Carrier = rapid.SampledFrom(all).Draw(t, "carrier")
 	case "countof":
-		c.Carrier = "bb"
+		c.Carrier = rapid.SampledFrom([]string{"bb", "bbalias"}).Draw(t, "carrier")
 	case "bytereader":
 		c.Carrier = rapid.SampledFrom([]string{"breader", "sreader", "buffer", "reader", "short", "eofdata", "bufio", "errafter", "limited", "limitedcut", "multi", "section", "exact"}).Draw(t, "carrier")
 		if c.Size > 5000 {
@@ -262,7 +292,15 @@ func runC14(c C14Case) (out core.Outcome) {
 	} else {
 		cls.Add("%s:<=1024", c.Carrier)
 	}
+	c14ArenaCheck = nil
 	msg, want := c14Carrier(c)
+	arenaCheck := func() bool {
+		if c14ArenaCheck != nil && out.Violation == nil {
+			out.Violation = c14ArenaCheck()
+		}
+		return out.Violation != nil
+	}
+	defer arenaCheck()
 	unsupported := isUnsupported(c.Carrier)
 	out.NonTrivial = big || unsupported || c.Carrier == "short" || c.Carrier == "eofdata" || c.Carrier == "errafter" || c.Carrier == "wtReuse" || c.Carrier == "bufio"
 
@@ -276,7 +314,31 @@ func runC14(c C14Case) (out core.Outcome) {
 		} else {
 			cls.Add("channel:sync")
 		}
+		preludeBytes := 0
+		if c.Prelude != "" {
+			// an earlier low-level write that was given up because its context had expired must leave nothing behind:
+			// neither bytes nor an armed write deadline
+			cls.Add("prelude:%s", c.Prelude)
+			ctx, cancel := context.WithDeadline(context.Background(), time.Now().Add(-time.Second))
+			if cw, ok := rig.ch.(ctxWriter); ok {
+				if c.Prelude == "ctxwrite1-expired" {
+					_, _ = cw.CtxWrite1(ctx, []byte("prelude"))
+				} else {
+					_, _ = cw.CtxWritev(ctx, [][]byte{[]byte("pre"), []byte("lude")})
+				}
+			}
+			cancel()
+			rig.ex.RunDeferred()
+			if acc, _ := rig.tr.Accepted(); len(acc) > 0 {
+				// accepted although the context had expired (allowed on queued channels): not part of this message
+				preludeBytes = len(acc)
+			}
+		}
 		err := rig.ch.Write(msg)
+		if arenaCheck() {
+			return
+		}
+		c14ArenaCheck = nil // from here on the harness itself reuses the buffers
 		if rig.ex.Deferred() > 0 {
 			cls.Add("sender-deferred")
 			out.NonTrivial = true
@@ -302,6 +364,7 @@ func runC14(c C14Case) (out core.Outcome) {
 			return
 		}
 		acc, flushed := rig.tr.Accepted()
+		acc, flushed = acc[preludeBytes:], flushed-preludeBytes
 		exs := rig.exceptions()
 		switch {
 		case unsupported:
@@ -365,7 +428,7 @@ func runC14(c C14Case) (out core.Outcome) {
 		case c.Carrier == "string":
 			want = mustContent(c)
 			fallthrough
-		case !unsupported && isReaderCarrier(c.Carrier), c.Carrier == "bytes", c.Carrier == "bb", c.Carrier == "bb1":
+		case !unsupported && isReaderCarrier(c.Carrier), c.Carrier == "bytes", c.Carrier == "bb", c.Carrier == "bb1", c.Carrier == "bbalias":
 			if err != nil {
 				out.Violation = core.Viol("C14/toreader-rejects:"+c.Carrier, "ToReader(%T) returned %v", msg, err)
 				return
